@@ -87,9 +87,9 @@ def body(c, d, R, S, por):
     reach = deep <= (64 if c.tier == 'quick' else 300)
     c.cover("sequence_completes", z3.And(active == 1, last), reach=reach)
     c.cover("stop_without_reset", z3.And(O["phy_stop"] == 1, O["phy_reset"] == 0), reach=reach)
-    c.cover("idle_after_a_sequence_and_retriggered", z3.And(O["phy_stop"] == 0, trig), reach=True)
+    c.cover("idle_after_a_sequence_and_retriggered", z3.And(O["phy_stop"] == 0, trig), reach=reach or not por)
     c.cover("trigger_ignored_during_sequence", z3.And(active == 1, trig))
-    c.cover_depth = min(deep, 300)
+    c.cover_depth = deep if reach else 8
     c.bmc_depth = max(c.bmc_depth, min(2 * (R + S) + 8, 120))
 
 
